@@ -1574,6 +1574,8 @@ bool MEDDLY::dd_edge::getElemInt(long index, minterm &m) const
     if (index < 0) return false;
 
     node_handle p = node;
+    // The empty set (terminal root) has no elements
+    if (fp->isTerminalNode(p)) return false;
     unpacked_node* U = unpacked_node::New(fp, SPARSE_ONLY);
     for (unsigned k = fp->getNumVariables(); k; --k) {
         //
@@ -1631,6 +1633,8 @@ bool MEDDLY::dd_edge::getElemLong(long index, minterm &m) const
     if (index < 0) return false;
 
     node_handle p = node;
+    // The empty set (terminal root) has no elements
+    if (fp->isTerminalNode(p)) return false;
     unpacked_node* U = unpacked_node::New(fp, SPARSE_ONLY);
     for (unsigned k = fp->getNumVariables(); k; --k) {
         //
